@@ -349,7 +349,9 @@ func SplitAggregate(m RtmpMsg) (out []RtmpMsg, err error) {
 			base = ts
 			first = false
 		}
-		out = append(out, RtmpMsg{Csid: m.Csid, TypeID: typ, StreamID: sid, Ts: m.Ts + ts - base, Payload: b[11 : 11+l]})
+		// RTMP 1.0 §7.1.6 (informally: 6.1.2): the message stream id of the aggregate overrides the ids in the sub-message headers
+		_ = sid
+		out = append(out, RtmpMsg{Csid: m.Csid, TypeID: typ, StreamID: m.StreamID, Ts: m.Ts + ts - base, Payload: b[11 : 11+l]})
 		b = b[11+l+4:]
 	}
 	return out, nil
